@@ -243,6 +243,8 @@ def worker(inst):
         return fp_kernel(inst)
     if inst[0] == "fpshift":
         return fp_shift(inst)
+    if inst[0] == "fpstab":
+        return fp_stability(inst)
     ob = build_obligation(inst)
     tier = os.environ.get("VERIF_TIER", "quick")
     out = decide(str(inst), ob, timeout_ms=8000 if tier == "quick" else 60000, twin=True)
@@ -523,6 +525,129 @@ def fp_shift(inst):
     return out
 
 
+def fp_stability(inst):
+    """Engine F: the real logsumexp / log-space einsum kernels on IEEE-754 symbolic cells.  Decided over ALL float64
+    operands in {-inf} u [-1e300, 1e300]: no argument of exp is NaN or above W, and in every reduction group the
+    largest exp argument is at least -W unless the whole group is -inf (so the group's sum of exponentials neither
+    overflows nor vanishes, which is what makes the float result the exact limit).  A model is replayed on the
+    real kernel against a brute-force reference; only a numerically wrong result is reported."""
+    import time
+    import numpy as np
+    import z3
+    import funsor.ops as ops
+    from symx import engine
+    from symx import fparray as FA
+    from symx.symarray import install
+    install()
+    W = 100.0
+    kernel = inst[1]
+    out = dict(status="ok", label=str(inst), detail="", obligations=1, discharged=0, nontrivial=True, paths=1, cells=0)
+    if kernel == "logsumexp":
+        _, _, shape, axis, keepdims = inst
+        shapes, dims_in = [shape], ["abcd"[:len(shape)]]
+        red = set(dims_in[0]) if axis is None else {dims_in[0][axis % len(shape)]}
+        dims_out = "".join(d for d in dims_in[0] if d not in red)
+
+        def run(arrs):
+            return ops.logsumexp(arrs[0], axis, keepdims)
+    else:
+        _, _, eq, shapes = inst
+        ins_, dims_out = eq.split("->")
+        dims_in = ins_.split(",")
+
+        def run(arrs):
+            from funsor.einsum.numpy_log import einsum
+            return einsum(eq, *arrs)
+    FA.EXP_LOG.clear()
+    arrs, vars_ = [], []
+    for k, sh in enumerate(shapes):
+        a, v = FA.fp_array("x%d" % k, tuple(sh))
+        arrs.append(a)
+        vars_.append(v)
+    try:
+        run(arrs)
+    except (NotImplementedError, TypeError) as e:
+        out.update(status="inconclusive", detail="Engine F cannot run the current kernel source: %s: %s" % (type(e).__name__, str(e)[:100]))
+        return out
+    logs = list(FA.EXP_LOG)
+    if len(logs) != len(shapes) or any(l.shape != tuple(sh) for l, sh in zip(logs, shapes)):
+        out.update(status="inconclusive", detail="kernel does not exponentiate each operand exactly once (exp calls: %s)" % [l.shape for l in logs])
+        return out
+    F = FA.F64
+    w = z3.FPVal(W, F)
+    cons, good = [], []
+    for k, (dims, v, lg) in enumerate(zip(dims_in, vars_, logs)):
+        groups = {}
+        for i in np.ndindex(*v.shape):
+            x = v[i]
+            cons.append(z3.And(z3.Not(z3.fpIsNaN(x)), z3.Or(z3.And(z3.fpIsInf(x), z3.fpIsNegative(x)),
+                                                             z3.And(z3.fpLEQ(x, z3.FPVal(1e300, F)), z3.fpGEQ(x, z3.FPVal(-1e300, F))))))
+            a = lg[i].t
+            if a is None:
+                out.update(status="inconclusive", detail="opaque exp argument")
+                return out
+            good.append(z3.And(z3.Not(z3.fpIsNaN(a)), z3.fpLEQ(a, w)))
+            groups.setdefault(tuple(ix for d, ix in zip(dims, i) if d in dims_out), []).append((x, a))
+        for g in groups.values():
+            good.append(z3.Or(z3.And(*[z3.fpIsInf(x) for x, _ in g]), z3.Or(*[z3.fpGEQ(a, z3.fpNeg(w)) for _, a in g])))
+            out["cells"] += len(g)
+    sol = z3.Solver()
+    sol.set("timeout", 120000 if os.environ.get("VERIF_TIER", "quick") == "quick" else 900000)
+    sol.add(*cons)
+    sol.add(z3.Not(z3.And(*good)))
+    t1 = time.time()
+    r = sol.check()
+    engine.STATS.queries += 1
+    engine.STATS.solver_s += time.time() - t1
+    out["solver_s"] = round(time.time() - t1, 2)
+    if r == z3.unsat:
+        engine.STATS.unsat += 1
+        out["discharged"] = 1
+        s2 = z3.Solver()      # reachability twin: with +inf / NaN operands the contract must be violable
+        s2.set("timeout", 60000)
+        s2.add(z3.Not(z3.And(*good)))
+        out["twin"] = str(s2.check())
+        return out
+    if r != z3.sat:
+        out.update(status="inconclusive", detail="FP query unknown/timeout")
+        return out
+    m = sol.model()
+    conc = []
+    for v in vars_:
+        c = np.empty(v.shape, dtype=np.float64)
+        for i in np.ndindex(*v.shape):
+            c[i] = FA.fpval(m.eval(v[i], model_completion=True))
+        conc.append(c)
+    with np.errstate(all="ignore"):
+        real = np.asarray(run([c.copy() for c in conc]), dtype=np.float64)
+    # brute-force reference
+    sizes = {}
+    for dims, c in zip(dims_in, conc):
+        for d, n in zip(dims, c.shape):
+            sizes[d] = n
+    alld = sorted(sizes)
+    redd = [d for d in alld if d not in dims_out]
+    ref = np.empty(tuple(sizes[d] for d in dims_out), dtype=np.float64)
+    for oi in np.ndindex(*ref.shape):
+        env = dict(zip(dims_out, oi))
+        ts = []
+        for ri in itertools.product(*(range(sizes[d]) for d in redd)):
+            env.update(zip(redd, ri))
+            ts.append(math.fsum(float(c[tuple(env[d] for d in dims)]) for dims, c in zip(dims_in, conc)))
+        mx = max(ts)
+        ref[oi] = mx if mx == -math.inf else mx + math.log(math.fsum(math.exp(t - mx) for t in ts))
+    realc = real.reshape(ref.shape) if real.size == ref.size else real
+    bad = realc.shape != ref.shape or any(
+        not ((realc[i] == ref[i]) or abs(realc[i] - ref[i]) <= 1e-9 * max(1.0, abs(ref[i]))) for i in np.ndindex(*ref.shape))
+    if bad:
+        out.update(status="violation", kind="value", detail="%s on %s returns %s, exact limit %s (an exp argument leaves [-%g, %g])" % (
+            kernel if kernel == "logsumexp" else "numpy_log.einsum(%r)" % eq, [c.tolist() for c in conc], realc.tolist(), ref.tolist(), W, W),
+            replay=dict(kernel=kernel, inst=repr(inst), operands=[c.tolist() for c in conc]))
+    else:
+        out.update(status="inconclusive", detail="stability contract fails at %s but the real kernel is still accurate there" % [c.tolist() for c in conc])
+    return out
+
+
 def _fpval(v):
     import struct
     import z3
@@ -604,6 +729,12 @@ def instances(tier):
         out.append(("edge", "logaddexp", np_arr(a), np_arr(b), want))
     out += [("fp", "_safesub", "safesub"), ("fp", "_reciprocal", "reciprocal"), ("fp", "_safediv", "safediv")]
     out += [("fpshift", "_safe_logaddexp_tensor_tensor", False), ("fpshift", "_safe_logaddexp_number_tensor", True)]
+    for sh in [(3,), (2, 2)] + ([(2, 3), (2, 2, 2)] if tier != "quick" else []):
+        for ax in [None] + list(range(len(sh))):
+            out.append(("fpstab", "logsumexp", sh, ax, False))
+    for eq, shs in [("ab,bc->ac", [(2, 2), (2, 2)]), ("ab,b->a", [(2, 2), (2,)]), ("a,a->", [(3,), (3,)]), ("ab->b", [(2, 2)]), ("a,b->ab", [(2,), (2,)]), ("ab,a->ab", [(2, 2), (2,)])] + (
+            [("ab,bc,c->a", [(2, 2), (2, 2), (2,)]), ("ab,bc->ac", [(2, 3), (3, 2)]), ("ab,ab->", [(2, 2), (2, 2)])] if tier != "quick" else []):
+        out.append(("fpstab", "einsum", eq, shs))
     return out, skipped
 
 
@@ -614,13 +745,14 @@ def main():
     chk.map("checks.c15", "worker", insts, chunksize=2)
     chk.bounds = dict(operands="unconstrained symbolic scalars of each op's carrier (no value enumeration)",
                       shapes=[str(s) for s in (SHAPES_Q if chk.tier == "quick" else SHAPES_T)], power_n="1..6" if chk.tier == "quick" else "1..10",
-                      fp="safediv/safesub/reciprocal over all of float64 inside the stated carriers")
+                      fp="safediv/safesub/reciprocal over all of float64 inside the stated carriers",
+                      fp_stability="logaddexp kernels (AST->FP), ops.logsumexp on shapes up to (2,2)|(2,2,2) and numpy_log.einsum on 6|9 equations with 2x2 operands (Engine F: real kernel on IEEE cells), operands in {-inf} u [-1e300, 1e300]")
     chk.assumptions = ["reals for floats except the three FloatingPoint kernels", "libm functions (math.exp etc.) are modelled by the SV algebra (uninterpreted where not polynomial)",
-                       "accuracy of exp/log kernels near the float range boundary is outside the claim", "NaN inputs outside the claim"]
+                       "behaviour near the float range boundary is claimed through the stability contract of the stabilising shift (no exp argument above 100, largest one per reduction group at least -100 unless the group is all -inf); accuracy of libm exp/log on [-100, 100] and of float addition of the exponentials is trusted", "NaN inputs outside the claim"]
     chk.floor = 100
     chk.max_inconclusive_share = 0.1
     chk.finish(rule="one obligation per (table entry | op) x operand-shape combination read from the live tables; distinct = distinct descriptor; non-trivial = goal not syntactically true",
-               trusted_base=["z3 5.1 (NRA/LIA, FloatingPoint)", "symx.sv algebra", "symx.symarray numpy model", "lang.cellops textbook ops", "AST->FP translator (validated on an edge-value grid each run)"],
+               trusted_base=["z3 5.1 (NRA/LIA, FloatingPoint)", "symx.sv algebra", "symx.symarray numpy model", "lang.cellops textbook ops", "AST->FP translator (validated on an edge-value grid each run)", "symx.fparray (Engine F numpy model: maximum / clip / where / subtract exact in QF_FP, exp / log / sums opaque)"],
                checker_cmd="./bin/vcheck C15 --tier " + chk.tier)
 
 
